@@ -38,11 +38,18 @@ var (
 	CfgD = Cfg{Name: "D", PageSize: 4096, MaxPages: 32, InitMeta: 2}
 	CfgE = Cfg{Name: "E", PageSize: 1024, MaxPages: 1024}
 	CfgF = Cfg{Name: "F", PageSize: 1024, MaxPages: 0, InitMeta: 8}
+	// smallest legal bounded files with 4 KiB pages (64 KiB = 16 pages): data and meta allocations collide early
+	CfgP16 = Cfg{Name: "P16", PageSize: 4096, MaxPages: 16}
+	CfgP17 = Cfg{Name: "P17", PageSize: 4096, MaxPages: 17}
+	CfgP21 = Cfg{Name: "P21", PageSize: 4096, MaxPages: 21}
+	// large pages (header probing, mmap sizing)
+	CfgG = Cfg{Name: "G", PageSize: 65536, MaxPages: 0}
+	CfgH = Cfg{Name: "H", PageSize: 131072, MaxPages: 16}
 )
 
 // CfgByName looks a configuration up.
 func CfgByName(n string) (Cfg, bool) {
-	for _, c := range []Cfg{CfgA, CfgB, CfgC, CfgD, CfgE, CfgF} {
+	for _, c := range []Cfg{CfgA, CfgB, CfgC, CfgD, CfgE, CfgF, CfgP16, CfgP17, CfgP21, CfgG, CfgH} {
 		if c.Name == n {
 			return c, true
 		}
